@@ -630,6 +630,17 @@ def ctor_catalogue():
     tidx = pd.date_range(midx[0] - pd.Timedelta(days=3), midx[-1] + pd.Timedelta(days=3), freq="h")
     temp = pd.Series(rng.random(len(tidx)) * 40 + 30, index=tidx)
     items.append(("BillingBaselineData.from_series(monthly reads, a 35-day bill across the fall-back night)", lambda a=meter, b=temp: BillingBaselineData.from_series(a.copy(), b.copy(), is_electricity_data=True), []))
+    # irregular bills with a median length of exactly 35 days are monthly bills: the 40-day bill is off-cycle, its days are missing
+    lens = [30, 30, 35, 35, 35, 40, 35, 35, 35, 30]
+    stamps = [pd.Timestamp("2021-01-04", tz="UTC")]
+    for L in lens:
+        stamps.append(stamps[-1] + pd.Timedelta(days=L))
+    midx = pd.DatetimeIndex(stamps)
+    meter = pd.Series(list(rng.random(len(lens)) * 500 + 300) + [np.nan], index=midx)
+    tidx = pd.date_range(midx[0], midx[-1], freq="h")
+    temp = pd.Series(rng.random(len(tidx)) * 40 + 30, index=tidx)
+    items.append(("BillingBaselineData.from_series(irregular bills, median exactly 35 days, one 40-day bill)", lambda a=meter, b=temp: BillingBaselineData.from_series(a.copy(), b.copy(), is_electricity_data=True),
+                  [P + "offcycle_reads_in_billing_monthly_data", P + "too_many_days_with_missing_data", P + "too_many_days_with_missing_meter_data"]))
     # billing reads on a regular 28-day calendar (inferred as an anchored weekly frequency) and on calendar months
     for label, midx in (("every 28 days", pd.date_range("2020-01-05", periods=14, freq="28D", tz="US/Pacific")), ("month starts", pd.date_range("2021-01-01", periods=13, freq="MS", tz="US/Pacific"))):
         meter = pd.Series(rng.random(len(midx)) * 500 + 300, index=midx)
